@@ -51,5 +51,5 @@ def run(ctx):
         "the reference map is Lean Feox.Kv.Spec; its agreement with the real store is differential testing over the generated sequences",
         "json-patch/serde_json results, the wall clock and the key->clock-shard hash are inputs of the model (recorded per call by the harness)",
         "disk reads are assumed faithful here (C05/C10 cover the bytes)",
-        "concurrent clause: checked on the scheduled interleavings of the conc engine only (harness oracle usage = sum of live footprints whenever all threads are parked or idle, and agreement with the Lean Conc system's figures); the bound 'usage never exceeds the limit under any interleaving' is proved on a model of the reservation loop (Feox.Conc.Reserve: load, weak compare-exchange with spurious failures, release; any threads, any order) whose sequential behaviour is tied by the kv engine's OutOfMemory paths - the loop itself is not driven concurrently against the model",
+        "concurrent clause: checked on the scheduled interleavings of the conc engine only (harness oracle usage = sum of live footprints whenever all threads are parked or idle, and agreement with the Lean Conc system's figures); the bound 'usage never exceeds the limit under any interleaving' is proved on a model of the reservation loop (Feox.Conc.Reserve: load, weak compare-exchange with spurious failures, release; any threads, any order) whose sequential behaviour is tied by the kv engine's OutOfMemory paths; the real loop is exercised by free-running writers (3-8 threads on disjoint keys against a limit that holds a handful of records, a sampler on memory_usage(): no sample above the limit, a refused write leaves its key as it was, final usage = what the admitted writes add up to) - judged by that oracle, not step by step against the model",
     ], pre_finish=recovery_stage)
